@@ -10,7 +10,10 @@ GEN_DEPS = []
 RULE = ('(a) random trees (depth <= 4, 0-4 children, rule names incl. `_x`, three token types, None leaves, childless '
         'trees) x generated pure transformer classes (callbacks on a random subset of rule names and token types building '
         'tagged tuples; plain / function-level v_args(inline=True) / v_args(tree=True) / mixed / class-level v_args / '
-        'v_args(wrapper=custom) / callbacks inherited from a user base class) x how the instance is made (T(), '
+        'v_args(wrapper=custom) / callbacks inherited from a user base class) x how a callback is attached (def '
+        '<name>, one generic function assigned to several names, lambda, functools.partial, staticmethod; every '
+        'callback builds a tag "<its own id>|<node name it was handed: tree.data / wrapper data / token type>" so a '
+        'callback called under the wrong name is visible) x how the instance is made (T(), '
         'T(visit_tokens=True|False), T(False), own __init__ without super with the class attribute __visit_tokens__ '
         'True|False): Transformer, Transformer_NonRecursive, '
         'Transformer_InPlace, Transformer_InPlaceRecursive each on a fresh copy, with _call_userfunc/_call_userfunc_token '
@@ -52,36 +55,103 @@ MODES = {'default': True, 'kw_true': True, 'kw_false': False, 'pos_false': False
          'own_init_cls_false': False}  # ... and the class attribute set to False
 
 
-def make_T(base, rules, toks, variant, rng_choices=None, mode='default'):
-    """a pure transformer class: callbacks build (tag, children-tuple)"""
-    from lark import v_args
-    ns = {}
+ATTACH = ['def', 'def', 'shared', 'lambda', 'partial', 'static']
+TREE_LIKE = ('tree', 'cls_tree', 'custom')      # modes in which the callback is handed the node name
+
+
+def var_of(variant, choices, i):
+    return variant if variant != 'mixed' else ['plain', 'inline', 'tree'][(choices or [0] * 99)[i % 99] % 3]
+
+
+def plan(rules, toks, variant, choices, attach):
+    """-> (rule name -> (callback id, mode), token type -> callback id): which callback OBJECT serves which name.
+    'shared': one generic callback assigned to several names (`add = sub = binop`), so __name__ != lookup name;
+    'lambda' / 'partial' / 'static': a lambda, a functools.partial of a helper, a staticmethod assigned to the name"""
+    if variant.startswith('cls_') or variant.endswith('inherit'):
+        attach = attach if attach in ('def', 'shared', 'lambda') else 'def'
+    rp = {}
     for i, n in enumerate(rules):
-        var = variant if variant != 'mixed' else ['plain', 'inline', 'tree'][(rng_choices or [0] * 99)[i % 99] % 3]
-        if var in ('plain', 'inherit'):
-            def f(self, ch, n=n):
-                return (n, tuple(ch))
-        elif var == 'custom':        # v_args(wrapper=...): a user-supplied visit wrapper
-            def g(self, data, ch, n=n):
-                return (n, tuple(ch)) if data == n else ('wrong-data', (data,))
-            g.__name__ = n
-            f = v_args(wrapper=lambda fn, data, children, meta: fn(data, children))(g)
-        elif var in ('inline', 'cls_inline', 'cls_inline_inherit'):
-            def g(self, *ch, n=n):
-                return (n, tuple(ch))
-            g.__name__ = n
-            f = v_args(inline=True)(g) if var == 'inline' else g
+        var = var_of(variant, choices, i)
+        if attach == 'def':
+            cid = n
+        elif attach == 'shared':
+            # callbacks of one class-level mode can be shared by every rule; in 'mixed' one object per mode
+            cid = 'g_' + var
         else:
-            def g(self, t, n=n):
-                return (n, tuple(t.children))
-            g.__name__ = n
-            f = v_args(tree=True)(g) if var == 'tree' else g
-        ns[n] = f
+            cid = attach[0].upper() + '_' + n
+        rp[n] = (cid, var)
+    tp = {k: (k if attach == 'def' else 'tk') for k in toks}
+    return rp, tp, attach
+
+
+def tags_of(rules, toks, variant='plain', choices=None, attach='def'):
+    """expected tag of the value built for each name: '<callback id>|<node name the callback is handed>'"""
+    rp, tp, _ = plan(rules, toks, variant, choices, attach)
+    rt = {n: '%s|%s' % (cid, n if var in TREE_LIKE else '') for n, (cid, var) in rp.items()}
+    tt = {k: '%s|%s' % (cid, k) for k, cid in tp.items()}
+    return rt, tt
+
+
+def make_T(base, rules, toks, variant, rng_choices=None, mode='default', attach='def'):
+    """a pure transformer class.  Every callback builds ('<its own id>|<node name it was given>', children): the
+    id says WHICH callback object ran, the node name is tree.data (v_args(tree=True)) / the wrapper's data
+    (v_args(wrapper=...)) / the token's type, and empty where lark hands the callback no name."""
+    import functools
+    from lark import v_args
+    rp, tp, attach = plan(rules, toks, variant, rng_choices, attach)
+    noself = attach in ('partial', 'static')
+    made = {}
+
+    def body(cid, var):
+        if var in ('plain', 'inherit'):
+            fn = (lambda ch: (cid + '|', tuple(ch))) if noself else (lambda self, ch: (cid + '|', tuple(ch)))
+        elif var == 'custom':
+            fn = ((lambda data, ch: ('%s|%s' % (cid, data), tuple(ch))) if noself
+                  else (lambda self, data, ch: ('%s|%s' % (cid, data), tuple(ch))))
+        elif var in ('inline', 'cls_inline', 'cls_inline_inherit'):
+            fn = (lambda *ch: (cid + '|', tuple(ch))) if noself else (lambda self, *ch: (cid + '|', tuple(ch)))
+        else:
+            fn = ((lambda t: ('%s|%s' % (cid, t.data), tuple(t.children))) if noself
+                  else (lambda self, t: ('%s|%s' % (cid, t.data), tuple(t.children))))
+        return fn
+
+    def decorate(fn, var):
+        if var == 'custom':
+            return v_args(wrapper=lambda f, data, children, meta: f(data, children))(fn)
+        if var == 'inline':
+            return v_args(inline=True)(fn)
+        if var == 'tree':
+            return v_args(tree=True)(fn)
+        return fn          # plain, or class-level decoration below
+
+    ns = {}
+    for n in rules:
+        cid, var = rp[n]
+        if (cid, var) not in made:
+            fn = body(cid, var)
+            if attach == 'def':
+                fn.__name__ = fn.__qualname__ = n
+            elif attach == 'shared':
+                fn.__name__ = fn.__qualname__ = 'generic_' + var
+            elif attach == 'static':
+                fn.__name__ = fn.__qualname__ = 'helper'
+            if attach == 'partial':
+                inner = fn
+                fn = functools.partial(lambda f, *a: f(*a), inner)      # no __name__, not a descriptor
+            fn = decorate(fn, var)
+            if attach == 'static':
+                fn = staticmethod(fn)
+            made[(cid, var)] = fn
+        ns[n] = made[(cid, var)]
+    tmade = {}
     for k in toks:
-        def h(self, tok, k=k):
-            return (k, (tok,))
-        h.__name__ = k
-        ns[k] = h
+        cid = tp[k]
+        if cid not in tmade:
+            def h(self, tok, cid=cid):
+                return ('%s|%s' % (cid, tok.type), (tok,))
+            h.__name__ = k if attach == 'def' else 'generic_token'
+            tmade[cid] = h
+        ns[k] = tmade[cid]
     if mode.startswith('own_init'):
         def init(self):
             pass
@@ -148,11 +218,11 @@ def node_paths(t, p=(), vt=True):
     return out
 
 
-def run_variant(base, rules, toks, variant, choices, t, mode='default'):
+def run_variant(base, rules, toks, variant, choices, t, mode='default', attach='def'):
     """-> (value, log) or ('exc', repr)"""
     obj = sl.to_lark(t)
     paths = paths_of(obj)
-    T = instantiate(make_T(base, rules, toks, variant, choices, mode), mode)
+    T = instantiate(make_T(base, rules, toks, variant, choices, mode, attach), mode)
     log = []
     ou, ot = T._call_userfunc, T._call_userfunc_token
 
@@ -171,14 +241,17 @@ def run_variant(base, rules, toks, variant, choices, t, mode='default'):
         return ('exc', repr(ex)[:200])
 
 
-def ref_value(t, rules, toks, vt):
-    """the documented result: callbacks bottom-up, default = rebuild the tree / keep the token"""
+def ref_value(t, rtags, ttags, vt):
+    """the documented result: callbacks bottom-up, default = rebuild the tree / keep the token.
+    rtags / ttags: name -> tag of the value the callback attached under that name builds (tags_of)"""
+    if isinstance(rtags, (list, tuple)):
+        rtags, ttags = tags_of(list(rtags), list(ttags))
     if t is None:
         return None
     if t[0] == 't':
-        return ('U', t[1], (t,)) if (vt and t[1] in toks) else t
-    ch = tuple(ref_value(c, rules, toks, vt) for c in t[2])
-    return ('U', t[1], ch) if t[1] in rules else ('T', t[1], ch)
+        return ('U', ttags[t[1]], (t,)) if (vt and t[1] in ttags) else t
+    ch = tuple(ref_value(c, rtags, ttags, vt) for c in t[2])
+    return ('U', rtags[t[1]], ch) if t[1] in rtags else ('T', t[1], ch)
 
 
 def log_ok(t, log, vt=True):
@@ -190,6 +263,10 @@ def log_ok(t, log, vt=True):
         if p and pos[p] > pos[p[:-1]]:
             return 'parent %s called before child %s' % (p[:-1], p)
     return None
+
+
+def tag_lit(d):
+    return '(%s : list (string * string))' % L(['(%s, %s)' % (S(k), S(v)) for k, v in d.items()])
 
 
 def path_lit(p):
@@ -211,11 +288,14 @@ def correspond(ctx):
                            'own_init_cls_false'])
         vt = MODES[mode]
         choices = [rng.randrange(3) for _ in range(99)]
-        obs = [run_variant(b, rules, toks, variant, choices, t, mode) for b in BASES]
-        wit = {'tree': t, 'rules': rules, 'toks': toks, 'variant': variant, 'choices': choices[:len(rules)], 'mode': mode}
-        ctx.count('variants', key=(repr(t), tuple(rules), tuple(toks), variant, mode), nontrivial=sl.stree_size(t) >= 3,
-                  variant=variant, size=min(sl.stree_size(t) // 5 * 5, 40), construct=mode)
-        want = ref_value(t, rules, toks, vt)
+        attach = rng.choice(ATTACH)
+        obs = [run_variant(b, rules, toks, variant, choices, t, mode, attach) for b in BASES]
+        wit = {'tree': t, 'rules': rules, 'toks': toks, 'variant': variant, 'choices': choices[:len(rules)], 'mode': mode,
+               'attach': attach}
+        ctx.count('variants', key=(repr(t), tuple(rules), tuple(toks), variant, mode, attach), nontrivial=sl.stree_size(t) >= 3,
+                  variant=variant, size=min(sl.stree_size(t) // 5 * 5, 40), construct=mode, attach=attach)
+        rtags, ttags = tags_of(rules, toks, variant, choices, attach)
+        want = ref_value(t, rtags, ttags, vt)
         bad = None
         if any(o[0] == 'exc' for o in obs):
             bad = 'a traversal raised: %s' % [o[1] for o in obs if o[0] == 'exc'][0]
@@ -238,7 +318,7 @@ def correspond(ctx):
                           'the three post-order traversals log different orders (each is children-first)')
             continue
         # the four values are equal and three logs are equal (checked above): emitted once
-        cases.append('((%s, %s, %s, %s, %s, %s, %s) : tr_case)' % (L([S(n) for n in rules]), L([S(k) for k in toks]), sl.B(vt), sl.stree_lit(t),
+        cases.append('((%s, %s, %s, %s, %s, %s, %s) : tr_case)' % (tag_lit(rtags), tag_lit(ttags), sl.B(vt), sl.stree_lit(t),
                                                    sl.value_lit(obs[0][0]), L([path_lit(p) for p in obs[0][1]]),
                                                    L([path_lit(p) for p in obs[2][1]])))
         meta.append(wit)
@@ -330,12 +410,14 @@ def correspond(ctx):
             variant = rng.choice(VARIANTS)
             choices = [rng.randrange(3) for _ in range(99)]
             mode = rng.choice(['default', 'default', 'kw_true', 'own_init', 'kw_false', 'own_init_cls_false'])
+            attach = rng.choice(ATTACH)
             wit = {'grammar': G.text, 'text': text, 'keep_all_tokens': ka, 'maybe_placeholders': mp, 'base': base,
                    'variant': variant, 'rules': rules, 'toks': toks, 'choices': choices[:len(rules)], 'mode': mode,
-                   'lexer': lexer, 'propagate_positions': pp}
+                   'lexer': lexer, 'propagate_positions': pp, 'attach': attach}
             bad, emb, post = embedded_vs_posthoc(wit, plain, tree)
             ctx.count('embedded', key=(G.text, text, ka, mp, base, variant, tuple(rules), tuple(toks), mode, lexer, pp), base=base,
-                      emb_variant=variant, nontrivial=True, emb_construct=mode, lexer=lexer, propagate_positions=pp)
+                      emb_variant=variant, nontrivial=True, emb_construct=mode, lexer=lexer, propagate_positions=pp,
+                      emb_attach=attach)
             got_one = True
             if bad:
                 ctx.violation('embedded-vs-posthoc', wit, True, bad)
@@ -346,7 +428,8 @@ def correspond(ctx):
                 lit = sl.dtree_lit(d, cache)
                 byid = {id(r): r for r in plain.rules}
                 lets = ''.join('let %s := %s in ' % (nm, sl.rrec_lit(sl.rrec_of_rule(byid[k]))) for k, nm in cache.items())
-                cases.append('((%s(%s, %s, %s, %s, %s, %s, %s)) : emb_case)' % (lets, L([S(n) for n in rules]), L([S(k) for k in toks]),
+                rtags, ttags = tags_of(rules, toks, variant, choices, attach)
+                cases.append('((%s(%s, %s, %s, %s, %s, %s, %s)) : emb_case)' % (lets, tag_lit(rtags), tag_lit(ttags),
                                                               sl.B(MODES[mode]), sl.B(mp), lit, sl.value_lit(emb), sl.stree_lit(sl.stree_of(tree))))
                 meta.append(wit)
         if got_one:
@@ -381,6 +464,17 @@ def correspond(ctx):
     bad, emb, post = embedded_vs_posthoc(wit)
     ctx.count('regress-F42', key='F42')
     if bad:       # F42 was fixed in /repo: an ordinary violation if it comes back
+        ctx.violation('embedded-vs-posthoc', wit, True, bad)
+    # (x3) regression F46 (fixed): PropagatePositions on an inlined ?rule whose result is a child with empty meta
+    wit = {'grammar': '?start: _E t1{A}\nt1{p}: p | p p*\nA: "a"\n_E: "e"\n', 'text': 'eaaaa', 'keep_all_tokens': False,
+           'maybe_placeholders': True, 'base': 'Transformer', 'variant': 'plain', 'rules': [], 'toks': ['A'], 'choices': [],
+           'mode': 'default', 'propagate_positions': True}
+    ctx.count('regress-F46', key='F46')
+    try:
+        bad = embedded_vs_posthoc(wit)[0]
+    except Exception as ex:
+        bad = 'raised %r' % (ex,)
+    if bad:
         ctx.violation('embedded-vs-posthoc', wit, True, bad)
     # (x) exotic: a Transformer_InPlace subclass as embedded transformer (create_callback passes a Tree) ------------
     g = 'start: a B\na: A\nA: "a"\nB: "b"\n'
@@ -423,10 +517,11 @@ def ref_chain(v, rules, toks, vt):
     """documented result of a second transformer applied to a VALUE (trees/tokens inside user values are not visited)"""
     if v is None or v[0] == 'U':
         return v
+    rt, tt = tags_of(list(rules), list(toks))
     if v[0] == 't':
-        return ('U', v[1], (v,)) if (vt and v[1] in toks) else v
+        return ('U', tt[v[1]], (v,)) if (vt and v[1] in tt) else v
     ch = tuple(ref_chain(c, rules, toks, vt) for c in v[2])
-    return ('U', v[1], ch) if v[1] in rules else ('T', v[1], ch)
+    return ('U', rt[v[1]], ch) if v[1] in rt else ('T', v[1], ch)
 
 
 def chain_bad(w):
@@ -454,7 +549,7 @@ def dag_witness_bad(w):
 def embedded_vs_posthoc(w, plain=None, tree=None):
     from lark import Lark
     mode = w.get('mode', 'default')
-    T = make_T(w['base'], w['rules'], w['toks'], w['variant'], w['choices'] + [0] * 99, mode)
+    T = make_T(w['base'], w['rules'], w['toks'], w['variant'], w['choices'] + [0] * 99, mode, w.get('attach', 'def'))
     kw = dict(parser='lalr', keep_all_tokens=w['keep_all_tokens'], maybe_placeholders=w['maybe_placeholders'],
               lexer=w.get('lexer', 'contextual'), propagate_positions=w.get('propagate_positions', False))
     if plain is None:
@@ -494,8 +589,8 @@ def replay(ctx, case):
     if 'tree' in w:
         t = _tup(w['tree'])
         mode = w.get('mode', 'default')
-        obs = [run_variant(b, w['rules'], w['toks'], w['variant'], w['choices'] + [0] * 99, t, mode) for b in BASES]
-        want = ref_value(t, w['rules'], w['toks'], MODES[mode])
+        obs = [run_variant(b, w['rules'], w['toks'], w['variant'], w['choices'] + [0] * 99, t, mode, w.get('attach', 'def')) for b in BASES]
+        want = ref_value(t, *tags_of(w['rules'], w['toks'], w['variant'], w['choices'] + [0] * 99, w.get('attach', 'def')), MODES[mode])
         if any(o[0] == 'exc' for o in obs) or any(o[0] != want for o in obs):
             return True
         return any(log_ok(t, [tuple(p) for p in o[1]], MODES[mode]) for o in obs)
